@@ -98,6 +98,13 @@ func AttrClass(name string) string {
 	return "other"
 }
 
+func attrOwner(ctx string) string {
+	if ctx == "@script" || ctx == "@raw" {
+		return ctx
+	}
+	return ""
+}
+
 // Walk visits every value reachable from the template file by reflection, so
 // a node type added to the parser later is covered without touching this code.
 func Walk(tf parser.TemplateFile) Items {
@@ -124,7 +131,9 @@ func Walk(tf parser.TemplateFile) Items {
 					name = "HeaderGo"
 				}
 			case parser.ExpressionAttribute:
-				name += "[" + AttrClass(x.Name) + "]"
+				name += "[" + AttrClass(x.Name) + "]" + attrOwner(ctx)
+			case parser.BoolExpressionAttribute, parser.SpreadAttributes, parser.ConditionalAttribute, parser.ConstantAttribute, parser.BoolConstantAttribute:
+				name += attrOwner(ctx)
 			case parser.TemplElementExpression:
 				if len(x.Children) > 0 {
 					name += "[block]"
@@ -161,7 +170,18 @@ func Walk(tf parser.TemplateFile) Items {
 						it.Ranges = append(it.Ranges, Rng{Slot: name + "." + f.Name, R: fv.Interface().(parser.Range)})
 					}
 				default:
-					visit(fv, name, ctx)
+					fctx := ctx
+					if f.Name == "Attributes" {
+						// attributes of <script> / raw (<style>) elements are generated by
+						// other code paths than those of ordinary elements: own slots
+						switch name {
+						case "ScriptElement":
+							fctx = "@script"
+						case "RawElement":
+							fctx = "@raw"
+						}
+					}
+					visit(fv, name, fctx)
 				}
 			}
 		}
